@@ -363,6 +363,19 @@ def L7_lines(S, c1, how):
     return tag
 
 
+def dry_runs():
+    yield 'L6_two_calls', dict(S='abc', c1=1, s='bc', W1=None, W2=2, end1=0, kind2=1)
+    yield 'L6_two_calls', dict(S='abc', c1=2, s='zz', W1=1, W2=None, end1=1, kind2=0)
+    for how in range(3):
+        yield 'L7_lines', dict(S='a\r\nb', c1=2, how=how)
+    yield 'L5_setter', dict(P='abc', cut=1, V='xy', W=None, lb=0)
+    yield 'L4_end_steps', dict(P='abc', cut=1, W=None, which=0, mark=0)
+    yield 'L4_end_steps', dict(P='abc', cut=1, W=2, which=1, mark=-1)
+    yield 'L4_end_steps', dict(P='abc', cut=0, W=None, which=2, mark=-1)
+    yield 'L3_regex', dict(P='ab', cut=0, D='c', W=None, fresh=True, h1=True, a1=1, b1=2, h2=False, a2=0, b2=0, zw=False)
+    yield 'L3_exact', dict(P='ab', cut=0, D='c', s1='bc', s2='zz', W=None, fresh=True)
+
+
 MANIFEST_ENTRY = {
     'level_text': 'Bounded symbolic verification of the real Expecter/searcher/SpawnBase code: every step of an '
                   'expect-family call (existing_data, new_data, eof, timeout, errored, buffer setter) is executed '
